@@ -14,6 +14,7 @@ Shapes == {<<"F", TRUE, 1, FALSE, TRUE>>, <<"F", TRUE, 2, FALSE, TRUE>>, <<"F", 
 Item(sh, id) == [id |-> id, kind |-> sh[1], hasfun |-> sh[2], obj |-> sh[3], nan |-> sh[4], feas |-> sh[5]]
 Events(n) == {[src |-> "tracked", items |-> <<Item(a, 10 * n + 1)>>] : a \in Shapes}
              \cup {[src |-> "other", items |-> <<Item(<<"F", TRUE, 0, FALSE, TRUE>>, 10 * n + 1)>>]}
+             \cup {[src |-> "tracked2", items |-> <<Item(a, 10 * n + 1)>>] : a \in {<<"F", TRUE, 1, FALSE, TRUE>>, <<"F", TRUE, 2, FALSE, TRUE>>}}
              \cup (IF Pairs THEN {[src |-> "tracked", items |-> <<Item(a, 10 * n + 1), Item(b, 10 * n + 2)>>] :
                                     a \in Shapes \ {<<"F", FALSE, 0, TRUE, TRUE>>}, b \in Shapes \ {<<"F", FALSE, 0, TRUE, TRUE>>, <<"F", TRUE, 0, FALSE, FALSE>>}}
                    ELSE {})
